@@ -82,7 +82,82 @@ def gate_groups(contracts: str, harnesses) -> set:
     return needed
 
 
-def generate(out: str, repo: str = REPO, verif: str = VERIF, harnesses=None) -> dict:
+def gate_slice_users(contracts: str, slice_names) -> dict:
+    """Prefix every contract function / harness that (transitively) uses a slice wrapper with
+    `#[cfg(not(any(verif_noslice_<name>, ...)))]`, mechanically, in the scratch copy.  Returns {item name: [slices]}."""
+    from slices import _mask, _block_end
+    files = {}
+    for fname in sorted(os.listdir(contracts)):
+        if fname.endswith(".rs"):
+            files[fname] = open(os.path.join(contracts, fname)).read().split("\n")
+    items = []   # dict(file, name, first, last, kind)
+    for fname, lines in files.items():
+        masked = _mask("\n".join(lines)).split("\n")
+        for k, l in enumerate(masked):
+            m = re.search(r"(?:^|[\s\]])(?:pub(?:\([a-z]+\))? )?fn (\w+)\s*(?:<[^>]*>)?\(", l)
+            if m:
+                try:
+                    end = _block_end(masked, k)
+                except Exception:
+                    continue
+                items.append({"file": fname, "name": m.group(1), "first": k, "last": end, "kind": "fn"})
+                continue
+            m = re.match(r"^\s*macro_rules! (\w+)", l)
+            if m:
+                try:
+                    end = _block_end(masked, k)
+                except Exception:
+                    continue
+                items.append({"file": fname, "name": m.group(1), "first": k, "last": end, "kind": "macro_def"})
+                continue
+            m = re.match(r"^\s*(\w+)!\((\w+)\s*,", l)
+            if m and m.group(1) not in ("assert", "vcover", "println", "eprintln", "matches", "format", "vec"):
+                items.append({"file": fname, "name": m.group(2), "first": k, "last": k, "kind": "macro_call", "macro": m.group(1)})
+    # skip items nested inside another fn item (closures / inner fns are part of their parent)
+    top = []
+    for it in items:
+        inside = any(o is not it and o["file"] == it["file"] and o["kind"] == "fn" and o["first"] < it["first"] and it["last"] <= o["last"] for o in items)
+        if not inside:
+            top.append(it)
+    deps = {}   # name -> set of slices
+    words = {}
+    for it in top:
+        body = "\n".join(files[it["file"]][it["first"]:it["last"] + 1])
+        words[id(it)] = set(re.findall(r"\b\w+\b", body))
+    changed = True
+    gated_names = {n: {n} for n in slice_names}
+    while changed:
+        changed = False
+        for it in top:
+            w = words[id(it)]
+            need = set()
+            for n, sls in gated_names.items():
+                if n in w and n != it["name"]:
+                    need |= sls
+            if it["kind"] == "macro_call" and it["macro"] in gated_names:
+                need |= gated_names[it["macro"]]
+            if need - deps.get(id(it), set()):
+                deps[id(it)] = deps.get(id(it), set()) | need
+                prev = gated_names.get(it["name"], set())
+                if not (deps[id(it)] <= prev):
+                    gated_names[it["name"]] = prev | deps[id(it)]
+                changed = True
+    # insert the cfg lines (bottom-up per file so indices stay valid)
+    out = {}
+    for fname, lines in files.items():
+        mine = sorted([it for it in top if it["file"] == fname and deps.get(id(it)) and it["kind"] != "macro_def"], key=lambda i: -i["first"])
+        for it in mine:
+            k = it["first"]
+            while k > 0 and re.match(r"^\s*(#\[|///|//)", lines[k - 1]) and not re.search(r"\bfn \w+|\bmod \w+|!\(", lines[k - 1]):
+                k -= 1
+            sl = sorted(deps[id(it)])
+            lines.insert(k, "#[cfg(not(any(" + ", ".join("verif_noslice_" + x for x in sl) + ")))]")
+            out[it["name"]] = sl
+        open(os.path.join(contracts, fname), "w").write("\n".join(lines))
+    return out
+
+
+def generate(out: str, repo: str = REPO, verif: str = VERIF, harnesses=None, disabled_slices=()) -> dict:
     src = os.path.join(repo, "src")
     eng = os.path.join(out, "src", "engine")
     if os.path.exists(out):
@@ -128,10 +203,9 @@ def generate(out: str, repo: str = REPO, verif: str = VERIF, harnesses=None) -> 
     # ---- harness groups: only the groups this run needs become Kani harnesses (code generation costs
     # about 1 s per harness); the functions themselves are always compiled, only the kani::* attributes are gated
     groups = gate_groups(contracts, harnesses)
-    with open(os.path.join(out, "build.rs"), "w") as f:
-        f.write("fn main() {\n" + "".join(f'    println!("cargo:rustc-cfg=verif_grp_{g}");\n' for g in sorted(groups)) + "}\n")
+    gated = gate_slice_users(contracts, [sl["name"] for sl in SLICES])
 
-    info = {"appended": [], "slices": [], "harness_groups": sorted(groups)}
+    info = {"appended": [], "slices": [], "harness_groups": sorted(groups), "lost_slices": {}, "wrappers": {}}
     for rel, (modname, cfile) in MODS.items():
         target = os.path.join(eng, rel)
         cpath = os.path.join(contracts, cfile)
@@ -148,10 +222,22 @@ def generate(out: str, repo: str = REPO, verif: str = VERIF, harnesses=None) -> 
         if not os.path.exists(target):
             raise LostAnchor(f"{sl['name']}: file {sl['file']}")
         text = open(target).read()
-        wrapper, meta = cut_slice(text, sl)
+        try:
+            wrapper, meta = cut_slice(text, sl)
+        except LostAnchor as e:
+            # this slice only: its obligations become UNDECIDED, everything else still runs
+            info["lost_slices"][sl["name"]] = str(e)
+            continue
+        first = text.count("\n") + 2
         with open(target, "a") as f:
             f.write("\n" + wrapper + "\n")
+        info["wrappers"][sl["name"]] = {"file": "src/engine/" + sl["file"], "first": first, "last": first + wrapper.count("\n") + 1}
         info["slices"].append(meta)
+    off = sorted(set(disabled_slices) | set(info["lost_slices"]))
+    info["disabled_slices"] = off
+    with open(os.path.join(out, "build.rs"), "w") as f:
+        f.write("fn main() {\n" + "".join(f'    println!("cargo:rustc-cfg=verif_grp_{g}");\n' for g in sorted(groups))
+                + "".join(f'    println!("cargo:rustc-cfg=verif_noslice_{n}");\n' for n in off) + "}\n")
     json.dump(info, open(os.path.join(out, "gen_tree.json"), "w"), indent=1)
     return info
 
@@ -163,4 +249,5 @@ if __name__ == "__main__":
     except LostAnchor as e:
         print(f"LOST-ANCHOR {e}")
         sys.exit(3)
+    info.pop("wrappers", None)
     print(json.dumps(info, indent=1))
